@@ -157,7 +157,7 @@ def label_to_op(name, args):
         return "read %d" % k
     if op == "put":
         return "put %s %d %s" % (pstr(p), k, hexs(d))
-    if op in ("get", "unlink", "dcreate", "fexists", "dexists"):
+    if op in ("get", "unlink", "dcreate", "dcreaterace", "fexists", "dexists"):
         return "%s %s" % (op, pstr(p))
     if op in ("copy", "copylim", "rename"):
         return "%s %s %s %d" % (op, pstr(p), pstr(q), k)
@@ -198,6 +198,8 @@ def rand_fs_exec(rng, nops):
             ops.append("dcreateroot a %d" % rng.randint(0, 1))         # Directory::create("/") / ("/tmp"): exist, so it must say so
         elif x < 0.04:
             ops.append("dcreated %s %d" % (p, rng.randint(0, 1)))
+        elif x < 0.06:
+            ops.append("dcreaterace " + p)        # three threads create the same (possibly deep) path at once
         elif x < 0.12:
             ops.append("dcreate " + p)
         elif x < 0.27:
